@@ -97,6 +97,9 @@ func init() {
 			ruleErrHolderShared(c, "C16.HOLDER")
 			ruleCreateIsCreate(c, "C16.CREATECTX")
 			ruleSameBucket(c, "C16.SAMEBUCKET")
+			ruleUpdateRunsHooks(c, "C16.HOOKSRUN")
+			// the hooks of every level of the store chain run (the system-entity constraint sits on the root store)
+			ruleProtocol(c, "C16.PROTOCOL")
 			// a refusal recorded in the child's error holder must survive the hand-over to the parent context
 			ruleParentChain(c, "C16.CHAIN")
 		},
